@@ -7,7 +7,7 @@
 From Coq Require Import ZArith Reals Floats Bool List.
 From Geo Require Import Base.GoPrim Base.F64 Gen.Bounds Gen.CellRect Model.Bounds.
 From Geo Require Import Proofs.C19_R1 Proofs.C10_S1 Proofs.C10_Rect Proofs.C10_Cap Proofs.C10_Hull
-  Proofs.C10_Numeric Proofs.C10_Refuted Proofs.C10_CapRect Proofs.C10_CellRect.
+  Proofs.C10_Numeric Proofs.C10_Refuted Proofs.C10_CapRect Proofs.C10_CellRect Proofs.C10_AddCap.
 Import ListNotations.
 Local Open Scope R_scope.
 
@@ -164,3 +164,15 @@ Theorem rect_bounder_witnesses_repaired :
    s2_Rect_ContainsPoint (rect_bound (bounder_run [wit_c; wit_d])) north_pole = true).
 Proof. exact bounder_witnesses_repaired. Qed.
 Print Assumptions rect_bounder_witnesses_repaired.
+
+(** Cap.AddCap keeps its conservative round-up: for non-empty caps whose float sum
+    dist = ChordAngleBetweenPoints(centers) + other.radius is an ordinary value in [2^-1000, 4),
+    the resulting radius is STRICTLY above dist (closed; Flocq rounding argument). *)
+Theorem cap_addcap_radius_strictly_above_sum : forall a b : s2_Cap,
+  s2_Cap_IsEmpty a = false -> s2_Cap_IsEmpty b = false -> nonnan (s2_Cap_radius a) ->
+  let dist := s1_ChordAngle_Add (s2_ChordAngleBetweenPoints (s2_Cap_center a) (s2_Cap_center b))
+                (s2_Cap_radius b) in
+  PrimFloat.leb (0x1p-1000)%float dist = true -> PrimFloat.ltb dist (0x1p+2)%float = true ->
+  PrimFloat.ltb dist (s2_Cap_radius (s2_Cap_AddCap a b)) = true.
+Proof. exact addcap_radius_strictly_above_sum. Qed.
+Print Assumptions cap_addcap_radius_strictly_above_sum.
